@@ -739,7 +739,11 @@ func (lh *levelHandler) searchL0SST(key []byte) (*kv.Entry, error) {
 		version uint64
 		best    *kv.Entry
 	)
-	for _, table := range lh.tables {
+	// L0 tables are kept in creation order. Newest first: an older table can then only
+	// replace the current candidate with a strictly greater version, so on a version tie
+	// (the plain API rewrites a key at the same internal version) the newest table wins.
+	for i := len(lh.tables) - 1; i >= 0; i-- {
+		table := lh.tables[i]
 		if table == nil {
 			continue
 		}
